@@ -2,7 +2,7 @@
 # run every seeded change against the check(s) of its property (scratch copies; /repo untouched); results -> gen/logs/seed_results.txt
 cd "$(dirname "$0")/.."
 OUT=gen/logs/seed_results.txt; : > $OUT
-for d in seeded/*/; do
+for d in seeded/*/; do  # results -> seeded/RESULTS.txt after review
   n=$(basename $d); p=${n%%-*}
   props=$p
   [ "$n" = "C09-A-zero-sentinel" ] && props="C09 C01"
